@@ -1,6 +1,6 @@
 (* C15 — the result does not depend on the order in which transfers complete. *)
-From AM.Model Require Import Base Download Stage.
-From AM.Lemmas Require Import Shuffle StageLemmas StageRunLemmas.
+From AM.Model Require Import Base Download Stage PathLocks.
+From AM.Lemmas Require Import Shuffle StageLemmas StageRunLemmas PathLocksLemmas.
 From Coq Require Import Permutation.
 Open Scope string_scope.
 Open Scope list_scope.
@@ -41,3 +41,19 @@ Theorem file_touches_only_its_paths :
   forall f u fs q, ~ In q (all_paths f) -> lookup (r_fs (download_file f u fs)) q = lookup fs q.
 Proof. exact download_frame. Qed.
 Print Assumptions file_touches_only_its_paths.
+
+(* The hypothesis "distinct tasks own disjoint sets of target paths" fails for
+   byte-identical indices of one folder, which share a by-hash alias.  The tool
+   therefore takes one lock per target path before it processes a file
+   (download_file_task).  For any number of files, any lock sets and any
+   schedule of lock acquisitions, semaphore entries and completions: two files
+   that are being processed at the same moment have no path in common - files
+   sharing a path are processed one after the other, so the files in progress
+   at any moment DO have disjoint footprints. *)
+Theorem files_sharing_a_path_never_overlap :
+  forall n y tr s t t' l,
+  lrun n y linit tr = Some s -> t < ltasks y -> t' < ltasks y ->
+  running (s t) = true -> running (s t') = true ->
+  In l (locks y t) -> In l (locks y t') -> t = t'.
+Proof. exact sharing_tasks_exclusive_lemma. Qed.
+Print Assumptions files_sharing_a_path_never_overlap.
